@@ -485,9 +485,6 @@ def last_element_loops(body):
                         continue
                     if not all(bb in dom.get(l, set()) or bb == l for l in latches):
                         continue
-                    read_after = any(L == (s_["rv"].get("op", {}).get("place", {}) or {}).get("local") or
-                                     any(a.get("place", {}).get("local") == L for a in (body.blocks[b2]["term"].get("args") or []))
-                                     for b2 in range(len(body.blocks)) if b2 not in loop for s_ in body.blocks[b2]["stmts"] + [{"rv": {}}])
                     init_none = any(s_["k"] == "assign" and s_["place"]["local"] == L and not s_["place"]["proj"] and s_["rv"]["k"] == "aggregate"
                                     and "None" in str(s_["rv"].get("variant", "")) + str(s_["rv"].get("name", ""))
                                     for b2 in range(len(body.blocks)) if b2 not in loop for s_ in body.blocks[b2]["stmts"])
